@@ -5,7 +5,7 @@ import tempfile
 
 from ..core import PROVED, REFUTED, UNKNOWN, MISSING
 from ..rules import check_const_transmute
-from ..tys import tstr, adt_args
+from ..tys import tstr, adt_args, subst
 
 EXPLANATION = (
     "Two static arguments. C01.S (universal in T and N): the premises of the layout induction over the binary digits of N are checked on the item facts "
@@ -90,6 +90,21 @@ def witness_source(tier):
         "pub type SEED = GenericArray<u8, UInt<UInt<UTerm, B1>, B0>>;\n" + elems + "\n"), names
 
 
+def storage_nodes(db):
+    """{bit: (ArrayType<T> as the UInt<N, bit> impl instantiates it, name of N, the impl)} for the two recursive ArrayLength impls."""
+    out = {}
+    for i in db.impls_of("ArrayLength"):
+        s = i["self"]
+        at = [x for x in i["items"] if x["name"] == "ArrayType"]
+        if not at or not (s.get("k") == "adt" and s["def"] == "typenum::UInt"):
+            continue
+        a = adt_args(s)
+        bit = tstr(a[1])
+        if at[0]["ty"].get("k") == "adt" and a[0].get("k") == "param" and bit in ("typenum::B0", "typenum::B1"):
+            out[bit] = (at[0]["ty"], a[0]["n"], i)
+    return out
+
+
 def check_structure(ctx, cfg):
     rule = "C01.S"
     db = ctx.db(cfg)
@@ -126,43 +141,52 @@ def check_structure(ctx, cfg):
             a = adt_args(s)
             bit = tstr(a[1])
             inner = a[0]
-            good = aty.get("k") == "adt" and inner.get("k") == "param"
+            impl_gens = {g["n"] for g in i["generics"]}
+            good = aty.get("k") == "adt" and inner.get("k") == "param" and bit in ("typenum::B0", "typenum::B1")
             if good:
-                na = adt_args(aty)
-                good = len(na) == 2 and na[0].get("k") == "param" and na[1].get("k") == "alias" and na[1]["def"].endswith("ArrayLength::ArrayType") \
-                    and [tstr(x) for x in na[1]["args"]] == [inner["n"], na[0]["n"]]
-                nodes[bit] = aty["def"]
+                nodes[bit] = (aty, inner["n"], i)
             ctx.ob(rule, "ArrayLength for UInt<N, %s>" % bit.split("::")[-1], good,
-                   "ArrayType<T> = %s; required Node<T, <N as ArrayLength>::ArrayType<T>>" % at[0]["s"], at=i["at"], cfg=cfg)
+                   "ArrayType<T> = %s; required a storage node struct instantiated over T and <N as ArrayLength>::ArrayType<T>" % at[0]["s"], at=i["at"], cfg=cfg)
         else:
             ok3 = False
             det.append("unexpected impl for " + tstr(s))
     ctx.ob(rule, "ArrayLength#impls", ok3 and set(nodes) == {"typenum::B0", "typenum::B1"},
            "ArrayLength impls: %s (required exactly UTerm, UInt<N,B0>, UInt<N,B1>) %s" % (selfs, "; ".join(det)), cfg=cfg)
     for bit, parity in (("typenum::B0", 0), ("typenum::B1", 1)):
-        name = nodes.get(bit)
-        adt = db.adts.get(name) if name else None
-        if adt is None:
+        if bit not in nodes:
             ctx.ob(rule, "node#%d" % parity, MISSING, "storage node struct for parity %d not found" % parity, cfg=cfg)
             continue
-        gens = [g["n"] for g in adt["generics"]]
-        tpar, upar = gens[0], gens[1]
+        aty, nname, imp = nodes[bit]
+        name = aty["def"]
+        adt = db.adts.get(name)
+        if adt is None:
+            ctx.ob(rule, "node#%d" % parity, MISSING, "storage node struct %s for parity %d not found" % (name, parity), cfg=cfg)
+            continue
+        # the node as the impl instantiates it: the struct's fields with its parameters replaced by the arguments of `ArrayType<T> = Node<..>`; a field
+        # is a child when it is <N as ArrayLength>::ArrayType<T>, an element when it is the associated type's own parameter T
+        impl_gens = {g["n"] for g in imp["generics"]}
+        sub = {g["n"]: x for g, x in zip([g for g in adt["generics"] if g["kind"] in ("type", "const")], adt_args(aty))}
         kinds = {"child": 0, "elem": 0, "marker": 0, "other": []}
+        tnames = set()
         for f in adt["fields"]:
-            if f["ty"].get("k") == "param" and f["ty"]["n"] == upar:
+            ft = subst(f["ty"], sub)
+            if ft.get("k") == "alias" and ft["def"].endswith("ArrayLength::ArrayType") and len(ft["args"]) == 2 and ft["args"][0].get("k") == "param" \
+                    and ft["args"][0]["n"] == nname and ft["args"][1].get("k") == "param" and ft["args"][1]["n"] not in impl_gens:
                 kinds["child"] += 1
-            elif f["ty"].get("k") == "param" and f["ty"]["n"] == tpar:
+                tnames.add(ft["args"][1]["n"])
+            elif ft.get("k") == "param" and ft["n"] not in impl_gens:
                 kinds["elem"] += 1
-            elif f["s"].startswith("core::marker::PhantomData<"):
+                tnames.add(ft["n"])
+            elif ft.get("k") == "adt" and ft["def"] == "core::marker::PhantomData":
                 kinds["marker"] += 1
             else:
-                kinds["other"].append(f["s"])
+                kinds["other"].append(tstr(ft))
         r = adt["repr"]
         ok = r["c"] and not r["packed"] and r["align"] is None and not r["transparent"] and not r["simd"] and adt["kind"] == "Struct" \
-            and kinds["child"] == 2 and kinds["elem"] == parity and not kinds["other"]
+            and kinds["child"] == 2 and kinds["elem"] == parity and not kinds["other"] and len(tnames) == 1
         ctx.ob(rule, "node#%d#%s" % (parity, name), ok,
-               "repr(C)=%s packed=%s align=%s; fields: %d children, %d trailing elements, %d markers, other=%s; required repr(C), 2 children, %d element(s), only PhantomData besides" % (
-                   r["c"], r["packed"], r["align"], kinds["child"], kinds["elem"], kinds["marker"], kinds["other"], parity), at=adt["at"], cfg=cfg)
+               "%s: repr(C)=%s packed=%s align=%s; fields as instantiated: %d children (<N as ArrayLength>::ArrayType<T>), %d trailing elements (T), %d markers, other=%s; required repr(C), 2 children, %d element(s), only PhantomData besides" % (
+                   tstr(aty), r["c"], r["packed"], r["align"], kinds["child"], kinds["elem"], kinds["marker"], kinds["other"], parity), at=adt["at"], cfg=cfg)
     # sealedness (shared with C12.S): ArrayType: Sealed, Sealed not nameable outside, ArrayLength: Unsigned
     tr = db.traits.get("ArrayLength")
     if tr is None:
